@@ -4,7 +4,7 @@ from props.util import *
 rule = ("RSI, FAST (scalars and bars with low <= close <= high), SLOW, MFI in [0,100] and ER in [0,1], slack 1e-9 (MFI: 100*tau(t)*c, claimed for "
         "c <= 1000), at every step whose reference denominator is non-zero: regimes trending / oscillating / gapping / nearly flat / widely "
         "varying volume / periodic, periods 1..8 and sampled to 512, 60..2000 steps; all runs also compared bit-exactly with the float model. "
-        "Plus, for every indicator and periods {1,2,3,5,8}, a 1e9 gap followed by a monotone ramp (seed-independent). Every third case also runs as a copy with one reset() after the window has wrapped (the range holds for the whole life of an instance). "
+        "Plus 4300-input runs (plain and with 1e9 spikes) of every oscillator, and, for every indicator and periods {1,2,3,5,8}, a 1e9 gap followed by a monotone ramp (seed-independent). Every third case also runs as a copy with one reset() after the window has wrapped (the range holds for the whole life of an instance). "
         "Non-trivial: distinct case longer than twice the period")
 assumptions = ["steps with a zero reference denominator (flat window, zero flow) belong to C08 and are skipped here: detected from the "
                "implementation's own window (max == min; sum of |moves| == 0; no flow in the window)"]
@@ -24,10 +24,10 @@ def gen_cases(ctx):
                 pr = (p, r.choice([1, 3, 5]) if ind == "SLOW" else 0, 0, 0.0)
                 bars = ind == "MFI" or (ind in ("FAST", "SLOW") and rep % 2 == 1)
                 if bars:
-                    st = rot.pick((ind, "b"), ["walk", "segments", "gaps", "grid", "tinybars"])
+                    st = rot.pick((ind, "b"), ["walk", "segments", "gaps", "grid", "tinybars", "ulpbars"])
                     feeds = [("b", 0) + b for b in bar_stream(r, n, st, p=p)]
                 else:
-                    st = rot.pick((ind, "n"), ["walk", "ties", "periodic", "pgrid", "flatafter", "segments", "uniform", "tiny", "huge", "crash"])
+                    st = rot.pick((ind, "n"), ["walk", "ties", "periodic", "pgrid", "flatafter", "segments", "uniform", "tiny", "huge", "crash", "ulps"])
                     feeds = [("n", 0, x) for x in scalar_stream(r, n, st, p=p, positive=True)]
                 if rep % 3 == 2:
                     feeds = sprinkle_serde(feeds, r)
@@ -45,6 +45,12 @@ def gen_cases(ctx):
                 feeds = [("n", 0, x) for x in xs]
             cases.append(Case("%s_gap_p%d" % (ind, p), [new_op(0, ind, pr)] + feeds, dump=(),
                               meta={"ind": ind, "p": p, "n": len(xs), "style": "gapramp"}))
+    # seed-independent long runs: maintenance code that only executes every 2^10 / 2^12 updates
+    for ind in KINDS:
+        for kind in ("plain", "spike"):
+            fd = long_feed("MFI" if ind == "MFI" else "SMA", 4300, kind)
+            cases.append(Case("%s_long_%s" % (ind, kind), [new_op(0, ind, long_params(ind, 3))] + fd, dump=(),
+                              meta={"ind": ind, "p": 3, "n": 4300, "style": "long-" + kind}))
     return sprinkle_resets(cases)
 
 
